@@ -44,6 +44,7 @@ type Config struct {
 	PrefetchTO   int64  `json:"prefetch_timeout_sec,omitempty"`
 	AsyncSize    int64  `json:"prefetch_async_size,omitempty"`
 	SilenceMs    int    `json:"silence_ms,omitempty"`
+	FetchTO      int64  `json:"fetch_timeout_sec,omitempty"`
 	BodyPiece    int    `json:"body_piece,omitempty"` // registry bodies deliver at most this many bytes per Read (0 = all at once)
 }
 
@@ -90,13 +91,17 @@ func New(cfg Config) (*Stack, error) {
 	s.Ref, _ = reference.Parse("reg.example/repo/img:latest")
 	silence := time.Duration(cfg.SilenceMs) * time.Millisecond
 	s.TaskMgr = task.NewBackgroundTaskManager(2, silence)
+	fetchTO := cfg.FetchTO
+	if fetchTO == 0 {
+		fetchTO = 5
+	}
 	fc := config.Config{
 		HTTPCacheType:            cfg.HTTPCache,
 		FSCacheType:              cfg.FSCache,
 		ResolveResultEntryTTLSec: cfg.TTLSec,
 		PrefetchTimeoutSec:       cfg.PrefetchTO,
 		PrefetchAsyncSize:        cfg.AsyncSize,
-		BlobConfig:               config.BlobConfig{ChunkSize: cfg.RegChunk, PrefetchChunkSize: cfg.PrefetchChnk, FetchTimeoutSec: 5, ValidInterval: 3600},
+		BlobConfig:               config.BlobConfig{ChunkSize: cfg.RegChunk, PrefetchChunkSize: cfg.PrefetchChnk, FetchTimeoutSec: fetchTO, ValidInterval: 3600},
 		DirectoryCacheConfig:     config.DirectoryCacheConfig{MaxLRUCacheEntry: cfg.LRUEntries, MaxCacheFds: cfg.MaxFds, SyncAdd: cfg.SyncAdd, Direct: cfg.Direct},
 		FuseConfig:               config.FuseConfig{PassThrough: cfg.PassThrough, MergeBufferSize: cfg.MergeBuf, MergeWorkerCount: cfg.MergeWorkers},
 	}
